@@ -300,6 +300,13 @@ def run(ctx):
     ctx.guarded('C15-D1', 'correlators.py@derivs', derivs, ctx, mod)
     ctx.guarded('C15-D4', 'correlators.py@m_eff', m_eff, ctx, mod)
     ctx.guarded('C15-D5', 'correlators.py@plateau', plateau, ctx, mod)
+    from .. import pat
+    f = mod.func('Corr.fit')
+    missing = pat.has_all(f, ['fitrange is None', 'fitrange = self.prange', 'fitrange = [0, self.T - 1]'])
+    ctx.check('C15-D5', 'correlators.py:Corr.fit#default-range', not missing, 'default fit range = prange if set, else all timeslices [0, T-1] (inclusive)', 'missing %s' % missing, mod.loc(f))
+    pl = mod.func('Corr.plateau')
+    missing = pat.has_all(pl, ['plateau_range = self.prange'])
+    ctx.check('C15-D5', 'correlators.py:Corr.plateau#default-range', not missing, 'default plateau range = prange', 'missing %s' % missing, mod.loc(pl))
 
 
 SELFTEST = [
@@ -318,5 +325,6 @@ SELFTEST = [
     ('meff-arccosh', 'pyerrors/correlators.py', "newcontent.append((self.content[t + 1] + self.content[t - 1]) / (2 * self.content[t]))", "newcontent.append((self.content[t + 1] + self.content[t - 1]) / self.content[t])", 'C15-D4'),
     ('meff-unguarded', 'pyerrors/correlators.py', "                if (self.content[t] is None) or (self.content[t + 1] is None) or (self.content[t - 1] is None) or (self.content[t][0].value == 0):", "                if (self.content[t] is None) or (self.content[t + 1] is None) or (self.content[t][0].value == 0):", 'C15-D1'),
     ('plateau-exclusive', 'pyerrors/correlators.py', "for item in self.content[plateau_range[0]:plateau_range[1] + 1] if item is not None])", "for item in self.content[plateau_range[0]:plateau_range[1]] if item is not None])", 'C15-D5'),
+    ('fit-default-range', 'pyerrors/correlators.py', "                fitrange = [0, self.T - 1]", "                fitrange = [0, self.T - 2]", 'C15-D5'),
     ('benign-stencil-rewrite', 'pyerrors/correlators.py', "newcontent.append(0.5 * (self.content[t + 1] - self.content[t - 1]))", "newcontent.append((self.content[t + 1] - self.content[t - 1]) / 2)", 'BENIGN'),
 ]
